@@ -234,6 +234,8 @@ def run(ctx):
         (name, src, out, cfg), v = res[len(res) // 2]
         ctx.sample({'src': src.decode('latin1'), 'out': out.decode('latin1'), 'cfg': cfg, 'verdict': v[0]})
     cli_path(ctx, keepfiles)
+    from .. import system
+    system.run(ctx, 'C01', nseq=(40 if ctx.quick else 300))
 
 
 def cli_path(ctx, keepfiles):
